@@ -44,7 +44,8 @@ PROPS = {
     "C07": ("p_c07", "Nsl.Props.C07", [], ["Nsl/Model/Wasm.lean", "Nsl/Model/Leb.lean", "Nsl/Proofs/Wasm.lean", "Nsl/Proofs/WasmGen.lean", "Nsl/Proofs/Leb.lean", "Nsl/Props/C07.lean"]),
     "C08": ("p_c08", "Nsl.Props.C08", ["Nsl.Props.GenC08"], ["Nsl/Model/Prec.lean", "Nsl/Proofs/Prec.lean", "Nsl/Props/C08.lean", "Nsl/Props/GenC08.lean"]),
     "C09": ("p_c09", "Nsl.Props.C09", ["Nsl.Props.GenC09"], ["Nsl/Model/Types.lean", "Nsl/Proofs/Types.lean", "Nsl/Props/C09.lean", "Nsl/Props/GenC09.lean"]),
-    "C10": ("p_c10", "Nsl.Props.C10", [], ["Nsl/Model/Overload.lean", "Nsl/Proofs/Overload.lean", "Nsl/Props/C10.lean"]),
+    "C10": ("p_c10", "Nsl.Props.C10", ["Nsl.Props.C10Agg"], ["Nsl/Model/Overload.lean", "Nsl/Proofs/Overload.lean", "Nsl/Props/C10.lean",
+                                                       "Nsl/Model/OverloadAgg.lean", "Nsl/Proofs/OverloadAgg.lean", "Nsl/Props/C10Agg.lean"]),
     "C11": ("p_c11", "Nsl.Props.C11", [], ["Nsl/Model/Flow.lean", "Nsl/Proofs/Flow.lean", "Nsl/Props/C11.lean"]),
     "C12": ("p_c12", "Nsl.Props.C12", [], ["Nsl/Model/Names.lean", "Nsl/Proofs/Names.lean", "Nsl/Proofs/NamesBinding.lean", "Nsl/Proofs/NamesStatic.lean", "Nsl/Props/C12.lean"]),
     "C13": ("p_c13", "Nsl.Props.C13", [], ["Nsl/Model/Static.lean", "Nsl/Proofs/Static.lean", "Nsl/Props/C13.lean"]),
